@@ -220,3 +220,57 @@ func verifHarness_C07_response_chunked() {
 	verifC07Response(2)
 	verifAssert(false, "witness")
 }
+
+// responses that never carry a body: 204 (no framing headers) and 304, which
+// may announce the length of the representation it did NOT send (RFC 7230
+// 3.3.2) — the message ends with its head, and the pipelined successor starts
+// right there.
+func verifHarness_C07_response_without_body_by_status() {
+	var w []byte
+	form := verifChoose("form", 3)
+	wantCode := 204
+	switch form {
+	case 0:
+		w = []byte("HTTP/1.1 204 No Content\r\nX-A: a\r\n\r\n")
+	case 1:
+		wantCode = 304
+		w = []byte("HTTP/1.1 304 Not Modified\r\nEtag: \"e\"\r\n\r\n")
+	case 2:
+		wantCode = 304
+		w = []byte("HTTP/1.1 304 Not Modified\r\nContent-Length: 5\r\nEtag: \"e\"\r\n\r\n")
+	}
+	body := verifBytes("next_body", 5)
+	w = append(w, "HTTP/1.1 299 Next\r\nContent-Length: 5\r\n\r\n"...)
+	w = append(w, body...)
+	br := bufio.NewReader(bytes.NewReader(append([]byte(nil), w...)))
+	ref, err := http.ReadResponse(br, nil)
+	if err != nil {
+		verifFail("reference-rejects-well-formed-response", "bodiless")
+		return
+	}
+	first := verifSnapshotRes(ref)
+	ref2, err := http.ReadResponse(br, nil)
+	if err != nil {
+		verifFail("reference-rejects-well-formed-response", "successor")
+		return
+	}
+	second := verifSnapshotRes(ref2)
+	verifAssertD(first.code == wantCode && len(first.body) == 0 && second.code == 299 && verifEqBytes(second.body, body), "reference-boundaries", "net/http")
+	e := verifHTTPEngine()
+	var seen []*verifSeenRes
+	cc := &ClientConn{Engine: e}
+	proc := NewClientProcessor(cc, func(res *http.Response, err error) {
+		if res != nil {
+			seen = append(seen, verifSnapshotRes(res))
+		}
+	})
+	p := NewParser(&verifNetConn{failAt: -1}, e, proc, true, nil)
+	perr := p.Parse(append([]byte(nil), w...))
+	verifAssertD(perr == nil, "well-formed-message-accepted", "bodiless-response")
+	verifAssertD(len(seen) == 2, "message-count", "bodiless-response")
+	if len(seen) == 2 {
+		verifAssertD(seen[0].code == wantCode && len(seen[0].body) == 0, "body-bytes", "bodiless-response")
+		verifAssertD(seen[1].code == 299 && len(seen[1].body) == 5 && verifEqBytes(seen[1].body, body), "successor-parsed-from-message-boundary", "bodiless-response")
+	}
+	verifAssert(false, "witness")
+}
